@@ -20,7 +20,8 @@ def generated_case(draw, max_blocks):
     blocks = draw(universe.script(2, max_blocks, unsupported_p=3))
     n = len([b for b in blocks if b["k"] != "raw"])
     perm = draw(st.permutations(list(range(n))))
-    return {"src": "gen", "blocks": blocks, "layout": draw(gen.layout(max_len=60)), "perm": list(perm)}
+    # eof: the script's last line has no line end (a file without a trailing newline)
+    return {"src": "gen", "blocks": blocks, "layout": draw(gen.layout(max_len=60)), "perm": list(perm), "eof": draw(st.integers(0, 3)) == 0}
 
 
 @st.composite
@@ -97,7 +98,8 @@ class C03(Prop):
         if case["src"] == "corpus":
             return {"corpus_items": [universe.corpus()[i]["src"] for i in case["items"]],
                     "between": [b and b["text"] for b in case["between"]]}
-        return {"ddl": "".join(t for _, t in self.texts(case)), "block_kinds": [b["k"] for b in case["blocks"]]}
+        ddl = "".join(t for _, t in self.texts(case))
+        return {"ddl": ddl.rstrip("\r\n") if case.get("eof") else ddl, "block_kinds": [b["k"] for b in case["blocks"]]}
 
     def evaluate(self, case):
         if case["src"] == "corpus":
@@ -111,7 +113,10 @@ class C03(Prop):
         for a, b in zip(kinds, kinds[1:]):
             out.label("pair:%s>%s" % (a, b))
         out.nontrivial = len(sup) >= 3 and len(set(b["k"] for b, _ in sup)) >= 2 and nraw >= 1
-        whole = "".join(t for _, t in bt)
+        eof = (lambda t: t.rstrip("\r\n")) if case.get("eof") else (lambda t: t)
+        if case.get("eof"):
+            out.label("no_final_newline")
+        whole = eof("".join(t for _, t in bt))
         r = loader.try_parse(whole)
         out.parses += 1
         if r[0] != "ok":
@@ -131,14 +136,14 @@ class C03(Prop):
             out.fail("concatenation", "script result differs from the concatenation of its blocks parsed alone\nscript=%r\ngot   =%r\nconcat=%r" % (whole, got, concat))
             return out
         if nraw:
-            clean = "".join(t for _, t in sup)
+            clean = eof("".join(t for _, t in sup))
             rc = loader.try_parse(clean)
             out.parses += 1
             if rc[0] != "ok" or loader.no_comments(rc[1]) != got:
                 out.fail("unsupported-neighbour", "removing the unsupported statements changes the result\nwith   =%r\nwithout=%r" % (whole, clean))
         perm = case.get("perm") or []
         if sorted(perm) == list(range(len(sup))) and perm != sorted(perm):
-            ptxt = "".join(sup[i][1] for i in perm)
+            ptxt = eof("".join(sup[i][1] for i in perm))
             rp = loader.try_parse(ptxt)
             out.parses += 1
             exp = [e for i in perm for e in alone[i]]
